@@ -43,7 +43,7 @@ fn main() {
             };
             let (shards, per) = match args.tier {
                 Tier::Quick => (16, 16),
-                Tier::Thorough => (64, 150),
+                Tier::Thorough => (64, 100),
             };
             vcore::run_shards(&mut mon, shards, threads, |s, m| {
                 if let Err(p) = vcore::catch(|| c04::run_shard(s, m, &shared, per)) {
